@@ -289,3 +289,25 @@ Theorem c11_one_delivery_per_pool : forall pe c,
   deliveries pe c = if existsb (fun t => descends c t) pe then 1 else 0.
 Proof. exact one_delivery_per_pool. Qed.
 Print Assumptions c11_one_delivery_per_pool.
+
+(* when pool p unsubscribes (before_remove), nobody else loses anything *)
+Theorem c11_unsubscribe_frame : forall cbs pe p cbs', pool_unsubscribe cbs pe p = Some cbs' ->
+  (forall c q, q <> p -> notify_deliveries cbs' c q = notify_deliveries cbs c q) /\
+  (forall c, notify_deliveries cbs' c p = notify_deliveries cbs c p - deliveries pe c).
+Proof. exact unsubscribe_frame. Qed.
+Print Assumptions c11_unsubscribe_frame.
+
+(* any history of pools added, removed and added again: unsubscription never
+   fails; a pool present gets each matching event exactly once; a removed pool gets nothing *)
+Theorem c11_pools_over_time : forall l,
+  match wrun l with
+  | WorldError => False
+  | World cbs reg =>
+    forall c p, notify_deliveries cbs c p
+                = match reg_get reg p with
+                  | Some pe => if existsb (fun t => descends c t) pe then 1 else 0
+                  | None => 0
+                  end
+  end.
+Proof. exact pools_over_time. Qed.
+Print Assumptions c11_pools_over_time.
